@@ -186,7 +186,42 @@ where
 {
     let mon = ctx.mon.clone().unwrap();
     ctx.begin("init".into());
-    let Ok(bump) = Bump::<A, S>::try_new_in(A::with(&mon)) else { return };
+    let Ok(mut bump) = Bump::<A, S>::try_new_in(A::with(&mon)) else { return };
+    if ctx.rng.chance(1, 4) {
+        // into_flattened of the exclusive-borrow vectors (they need the arena to themselves, so this comes first)
+        let k = ctx.rng.range(0, 7);
+        let vals: Vec<u32> = (0..2 * k).map(|_| ctx.rng.below(E::MODULUS as usize) as u32 % E::MODULUS).collect();
+        let rev = ctx.rng.bool();
+        ctx.begin(format!("into_flattened of {k} arrays [T;2] ({})", if rev { "MutBumpVecRev<[T;2]>" } else { "MutBumpVec<[T;2]>" }));
+        let ms = bump.as_mut_scope();
+        let got: Vec<u32> = if rev {
+            let mut v = bump_scope::MutBumpVecRev::with_capacity_in(k / 2, ms);
+            // pushes prepend: feed the arrays back to front so that the slice reads like `vals`
+            for c in vals.chunks(2).rev() {
+                v.push([E::make(c[0]), E::make(c[1])]);
+            }
+            let flat = v.into_flattened();
+            if flat.capacity() < flat.len() {
+                ctx.viol("C16", "into_flattened_capacity_below_len".into(), format!("{} < {}", flat.capacity(), flat.len()));
+            }
+            flat.iter().map(|e| e.val()).collect()
+        } else {
+            let mut v = bump_scope::MutBumpVec::with_capacity_in(k / 2, ms);
+            for c in vals.chunks(2) {
+                v.push([E::make(c[0]), E::make(c[1])]);
+            }
+            let flat = v.into_flattened();
+            if flat.capacity() < flat.len() {
+                ctx.viol("C16", "into_flattened_capacity_below_len".into(), format!("{} < {}", flat.capacity(), flat.len()));
+            }
+            flat.iter().map(|e| e.val()).collect()
+        };
+        if got != vals {
+            ctx.viol("C16", format!("into_flattened_changed_elements:{}", if rev { "MutBumpVecRev" } else { "MutBumpVec" }), format!("real {got:?} expected {vals:?}"));
+        }
+        ctx.rep.count("into_flattened_mut");
+        ctx.ev("split");
+    }
     let s: &BumpScope<A, S> = bump.as_scope();
     let n = ctx.rng.range(0, 24);
     let init: Vec<u32> = (0..n).map(|_| ctx.rng.below(E::MODULUS as usize) as u32 % E::MODULUS).collect();
